@@ -12,6 +12,7 @@ import (
 	"go/ast"
 	"go/printer"
 	"go/token"
+	"go/types"
 	"os"
 	"os/exec"
 	"path/filepath"
@@ -184,7 +185,11 @@ func checkBoundsProven(p *Program, r *Report, rule, file string) {
 				}
 			}
 			r.OK(rule, cn, pos, "not proven by the compiler; argued: "+why)
-		} else if !integerGuarded(p, fn.Name.Name, s) {
+		} else if indexOfSameString(p, fn.Name.Name, s) {
+			r.OK(rule, cn, pos, "not proven by the compiler; argued: a non-negative result of strings.Index* on the indexed string is a valid index of it")
+		} else if s.Kind == "IsSliceInBounds" || !integerGuarded(p, fn.Name.Name, s) {
+			// slice expressions need 0 ≤ lo ≤ hi ≤ len, which the prove pass rarely gets from the guards people
+			// write (a result of strings.Index*, a cursor advanced by a rune size): only element indexes are judged
 			// no comparison of the length or of the index guards it: the range is established some other way
 			// (strings.HasPrefix, a caller's test) that neither the compiler nor this rule follows
 			skipped = append(skipped, name+" "+expr)
@@ -377,5 +382,215 @@ func checkNoDisprovedBounds(p *Program, r *Report, rule string, rels ...string) 
 			continue
 		}
 		r.Check(bad == "", rule, cn, rel, fmt.Sprintf("none of the index and slice expressions of the package is proved out of range (%d facts of the prove pass read)", facts), "the compiler proves an index or slice expression out of range where it is evaluated ("+bad+"): every execution that reaches it panics")
+	}
+}
+
+// checkLoopsMakeProgress: in the scanners of a file of the root package, no loop has only loop-invariant exit
+// conditions (conditions computed from values defined outside the loop, without calls or loads inside it): such a
+// loop ends in its first turn or never — a deleted increment, an index that is not the loop variable.
+func checkLoopsMakeProgress(p *Program, r *Report, rule, file string) {
+	pkg := p.SSAPkg("")
+	if pkg == nil {
+		r.Undec(rule, "safehtml/"+file+"#loops", "", "package not found")
+		return
+	}
+	n := 0
+	for _, f := range p.SrcFuncs() {
+		if f.Pkg != pkg || filepath.Base(p.Fset.Position(f.Pos()).Filename) != file {
+			continue
+		}
+		for _, h := range loopHeaders(f) {
+			in := loopBlocks(h)
+			pure := true // no store and no call inside the loop: what is loaded there does not change
+			for b := range in {
+				for _, ins := range b.Instrs {
+					switch y := ins.(type) {
+					case *ssa.Store, *ssa.MapUpdate, *ssa.Send, *ssa.Go, *ssa.Defer:
+						pure = false
+					case *ssa.Call:
+						if _, isLen := isLenOf(y); !isLen {
+							pure = false
+						}
+					}
+				}
+			}
+			var invariant func(v ssa.Value, depth int) bool
+			invariant = func(v ssa.Value, depth int) bool {
+				if depth > 6 {
+					return false
+				}
+				switch x := v.(type) {
+				case *ssa.Const, *ssa.Parameter, *ssa.Global, *ssa.FreeVar, *ssa.Function:
+					return true
+				case ssa.Instruction:
+					if !in[x.Block()] {
+						return true
+					}
+					switch y := x.(type) {
+					case *ssa.BinOp:
+						return invariant(y.X, depth+1) && invariant(y.Y, depth+1)
+					case *ssa.UnOp:
+						if y.Op == token.MUL {
+							return pure && invariant(y.X, depth+1)
+						}
+						return y.Op != token.ARROW && invariant(y.X, depth+1)
+					case *ssa.IndexAddr:
+						return invariant(y.X, depth+1) && invariant(y.Index, depth+1)
+					case *ssa.FieldAddr:
+						return invariant(y.X, depth+1)
+					case *ssa.Alloc:
+						return true
+					case *ssa.Index:
+						return invariant(y.X, depth+1) && invariant(y.Index, depth+1)
+					case *ssa.Lookup:
+						if _, isMap := y.X.Type().Underlying().(*types.Map); isMap {
+							return false
+						}
+						return invariant(y.X, depth+1) && invariant(y.Index, depth+1)
+					case *ssa.Convert:
+						return invariant(y.X, depth+1)
+					case *ssa.Call:
+						if lv, isLen := isLenOf(y); isLen {
+							return invariant(lv, depth+1)
+						}
+					}
+				}
+				return false
+			}
+			exits, variant := 0, false
+			for b := range in {
+				for _, su := range b.Succs {
+					if in[su] {
+						continue
+					}
+					exits++
+					iff, ok := b.Instrs[len(b.Instrs)-1].(*ssa.If)
+					if !ok || !invariant(iff.Cond, 0) {
+						variant = true
+					}
+				}
+			}
+			if exits == 0 {
+				continue // for { … } left by return or panic only: not this rule's business
+			}
+			n++
+			short := strings.TrimPrefix(fnName(f), modulePath+".")
+			r.Check(variant, rule, fmt.Sprintf("%s#loop-makes-progress@%d", short, h.Index), p.Pos(f.Pos()), "some condition under which the loop is left changes from turn to turn", "every condition under which the loop is left is computed from values that do not change inside it: the loop ends in its first turn or never (a deleted increment, an index that is not the loop variable)")
+		}
+	}
+	if n == 0 {
+		r.OK(rule, "safehtml/"+file+"#loops", file, "no loops")
+	}
+}
+
+// indexOfSameString: x[i] where i is the result of a strings/bytes Index* search in x itself and a branch on the
+// path has excluded the negative result.
+func indexOfSameString(p *Program, fname string, s bceSite) bool {
+	f := p.Func("", fname)
+	if f == nil {
+		return false
+	}
+	for _, b := range f.Blocks {
+		for _, in := range b.Instrs {
+			ps := p.Fset.Position(in.Pos())
+			if ps.Line != s.Line || ps.Column != s.Col {
+				continue
+			}
+			var x, idx ssa.Value
+			switch y := in.(type) {
+			case *ssa.Index:
+				x, idx = y.X, y.Index
+			case *ssa.Lookup:
+				x, idx = y.X, y.Index
+			case *ssa.IndexAddr:
+				x, idx = y.X, y.Index
+			default:
+				continue
+			}
+			c, ok := idx.(*ssa.Call)
+			if !ok {
+				return false
+			}
+			g := staticCallee(c.Common())
+			if g == nil || g.Pkg == nil || (g.Pkg.Pkg.Path() != "strings" && g.Pkg.Pkg.Path() != "bytes") || !strings.Contains(g.Name(), "Index") || len(c.Common().Args) == 0 || c.Common().Args[0] != x {
+				return false
+			}
+			for _, gd := range GuardsOf(b) {
+				bo, ok := gd.Cond.(*ssa.BinOp)
+				if !ok || bo.X != idx {
+					continue
+				}
+				k, isK := constInt(bo.Y)
+				if !isK {
+					continue
+				}
+				switch {
+				case bo.Op == token.LSS && k == 0 && !gd.Pol, bo.Op == token.GEQ && k == 0 && gd.Pol,
+					bo.Op == token.EQL && k == -1 && !gd.Pol, bo.Op == token.NEQ && k == -1 && gd.Pol,
+					bo.Op == token.GTR && k == -1 && gd.Pol, bo.Op == token.LEQ && k == -1 && !gd.Pol:
+					return true
+				}
+			}
+		}
+	}
+	return false
+}
+
+// checkScansStartAtZero (C12.R1): a function of the file that walks over a string parameter by an index looks at
+// the string from its first byte: the index variable enters the loop as 0. (A scan that starts at 1 skips a byte
+// unseen: consumeIn would swallow the first byte of a URL whatever it is.)
+func checkScansStartAtZero(p *Program, r *Report, rule, file string) {
+	pkg := p.SSAPkg("")
+	n := 0
+	for _, f := range p.SrcFuncs() {
+		if pkg == nil || f.Pkg != pkg || filepath.Base(p.Fset.Position(f.Pos()).Filename) != file {
+			continue
+		}
+		seen := map[*ssa.Phi]bool{}
+		for _, b := range f.Blocks {
+			for _, in := range b.Instrs {
+				var x, idx ssa.Value
+				switch y := in.(type) {
+				case *ssa.Index:
+					x, idx = y.X, y.Index
+				case *ssa.Lookup:
+					x, idx = y.X, y.Index
+				default:
+					continue
+				}
+				prm, ok := x.(*ssa.Parameter)
+				if !ok || !isStringish(prm.Type()) {
+					continue
+				}
+				ph, ok := idx.(*ssa.Phi)
+				if !ok || seen[ph] {
+					continue
+				}
+				seen[ph] = true
+				h := ph.Block()
+				okStart, isLoop := true, false
+				for i, pr := range h.Preds {
+					if h.Dominates(pr) {
+						isLoop = true
+						continue
+					}
+					if k, isK := constInt(ph.Edges[i]); !isK || k != 0 {
+						// a scan from the end, or from a position handed in, is not this rule's business
+						if _, isConst := ph.Edges[i].(*ssa.Const); isConst {
+							okStart = false
+						}
+					}
+				}
+				if !isLoop {
+					continue
+				}
+				n++
+				short := strings.TrimPrefix(fnName(f), modulePath+".")
+				r.Check(okStart, rule, short+"#scan-starts-at-the-first-byte", p.Pos(f.Pos()), "the index with which the string parameter is walked enters the loop as 0", "the scan over the string starts at a constant position other than 0: the bytes before it are consumed unseen (consumeIn would swallow the first byte of a URL whatever it is)")
+			}
+		}
+	}
+	if n == 0 {
+		r.OK(rule, "safehtml/"+file+"#scans", file, "no function walks over a string parameter by an index from a constant position")
 	}
 }
